@@ -299,6 +299,24 @@ def check_trap(c):
         got = rec(p, f)
         if got != want or (want[1] is not None and type(got[1]) is not type(want[1])):
             out.append((f, None, want, got))
+    # the same error produced IN A CELL: the host's callCellValue listener evaluates the cell's formula with the same
+    # parser (a nested parse that ends in the error) and hands the error value to the formula that referenced it;
+    # a trapped error must not surface in the outer record, an untrapped one must
+    from hotxlfp.formulas import error as xlerror
+    q = make_parser()
+    sheet = {'A1': x, 'B2': '2+3'}
+
+    def cell_value(cell, setter):
+        f = sheet.get(cell.label)
+        if f is not None:
+            inner = q.parse(f)
+            setter(xlerror.from_message(inner['error']) if inner['error'] is not None else inner['result'])
+    q.on('callCellValue', cell_value)
+    for f, want in [(f_.replace(x, 'A1'), w_) for (f_, w_) in exp] + [('IFERROR(A1,1)+IFERROR(B2,1)', (None, 6)), ('B2+0*IFERROR(A1,1)', (None, 5)),
+                                                                      ('IFERROR(B2,A1)', (None, 5))]:
+        got = rec(q, f)
+        if got != want or (want[1] is not None and type(got[1]) is not type(want[1])):
+            out.append((f + ' with cell A1 holding ' + x + ' (evaluated by a nested parse of the same parser)', None, want, got))
     return out
 
 
